@@ -40,11 +40,19 @@ def _bounded(tier):
                 cases=n, violation=bool(fail), witness=fail)
 
 
+def _no_module_state():
+    """the engine reads module-level containers with their initial contents; that is justified only if no compile- or
+    render-time function writes module-level state (the obligations of contracts/frames.py that say so)"""
+    from contracts.frames import write_sites
+    return [o for o in write_sites() if 'module-level state' in o['detail'] or o['oid'] == 'frame.write.sites_enumerated']
+
+
 PROP = Prop(
     'C01',
-    contracts=[REGISTRY[RC + '.search#M'], REGISTRY[PA + '#C01'], REGISTRY[PB + '#C01'], REGISTRY[PC + '#C01'], REGISTRY[SK + '#C01']],
-    claims=['*::C01.*', '*::loop*', 'C01.render.*', '*::ensures.range', '*::call.*', '*::C07.entity_is_a_var_tag'],
-    structural=[_render_literals],
+    contracts=[REGISTRY[RC + '.search#M'], REGISTRY[PA + '#C01'], REGISTRY[PB + '#C01'], REGISTRY[PC + '#C01'], REGISTRY[SK + '#C01'],
+               REGISTRY['DocumentTemplate.DT_String.String.cook#C01']],
+    claims=['*::C01.*', '*::loop*', 'C01.render.*', 'frame.write.*', '*::ensures.range', '*::call.*', '*::C07.entity_is_a_var_tag'],
+    structural=[_render_literals, _no_module_state],
     native_default=native_c01.native_for,
     bounded=[_bounded],
     assumptions=['the compiler is verified against the contract M of a tag matcher (a match lies at or after the search position, inside the '
